@@ -64,7 +64,9 @@ func process1MapMerge(obj map[string]any, mergeFrom *Document, mergeFromDocs []*
 		return nil, err
 	}
 
-	next, err := mergeMap(obj, in)
+	// The referenced value may lie inside obj, or contain it. Merge a copy,
+	// so obj is never merged with a tree that this merge is modifying.
+	next, err := mergeMap(obj, copyTree(in))
 	if err != nil {
 		return nil, err
 	}
@@ -139,7 +141,8 @@ func process1ListMerge(obj []any, mergeFrom *Document, mergeFromDocs []*Document
 		return nil, err
 	}
 
-	return mergeList(obj, in)
+	// As in process1MapMerge: never share entries with the referenced list.
+	return mergeList(obj, copyTree(in))
 }
 
 func process1ListReplace(obj []any, mergeFrom *Document, mergeFromDocs []*Document, m any, depth int) (any, error) {
